@@ -5,7 +5,8 @@ import ast
 
 from ..cfg import CFG
 from ..core import (AnalysisError, DefRef, LambdaRef, NotConst, Ref, call_name, calls_in, dotted, enclosing_function,
-                    func_params, norm, qualname_of, walk_no_nested)
+                    func_params, norm, qualname_of, walk_no_nested, expand_aliases, single_assign_aliases)
+from .. import logic
 from .c06 import all_paths_raise
 
 PROPERTY = "C09"
@@ -249,18 +250,53 @@ def run(ctx):
             data_names.add(d.slice.value)
     fw = prog.fold(sel, ast.parse("FUNCTION_WHITELIST").body[0].value)
     data_names |= {r.qualname.split(".")[-1] for r in fw if isinstance(r, DefRef)}
-    # G: what the generator-variable guard refuses
+    # G: what the generator-variable guard refuses.  Accepted spellings of "some generator target is a known name -> raise":
+    #   (a) for gen in node.generators: if <target.id in X ...>: raise
+    #   (b) if any(<target.id in X ...> for gen in node.generators): raise
+    #   (c) v = next((... for gen in node.generators if <target.id in X ...>), None) ; if v is not None: raise
     guard_ifs = []
+    guard_tests = {}  # id(if stmt) -> expression holding the membership tests
+    guard_loops = {}  # id(if stmt) -> For loop or None (comprehension forms visit every generator by construction)
+
+    def _mentions_target_id(e):
+        return any(isinstance(n, ast.Attribute) and n.attr == "id" and isinstance(n.value, ast.Attribute) and n.value.attr == "target" for n in ast.walk(e))
+
     for fn in funcs_in(ev_fn):
+        fal = single_assign_aliases(fn)
         for st in ast.walk(fn):
-            if isinstance(st, ast.If) and all_paths_raise(cfg, st.body) and any(
-                    isinstance(n, ast.Attribute) and n.attr == "id" and isinstance(n.value, ast.Attribute) and n.value.attr == "target"
-                    for n in ast.walk(st.test)):
+            if not (isinstance(st, ast.If) and all_paths_raise(cfg, st.body)):
+                continue
+            t = st.test
+            if _mentions_target_id(t) and not any(isinstance(n, (ast.GeneratorExp, ast.ListComp)) for n in ast.walk(t)):
+                lp = getattr(st, "_parent", None)
+                while lp is not None and not isinstance(lp, ast.For):
+                    lp = getattr(lp, "_parent", None)
                 guard_ifs.append(st)
+                guard_tests[id(st)] = t
+                guard_loops[id(st)] = lp
+                continue
+            te = expand_aliases(t, fal)
+            comps = [n for n in ast.walk(te) if isinstance(n, (ast.GeneratorExp, ast.ListComp)) and len(n.generators) == 1 and norm(n.generators[0].iter).endswith(".generators")]
+            for cp in comps:
+                par_ok = False
+                held = None
+                # (b) any(<tests> for ...)   /   (c) next((... if <tests>), None) is not None
+                for n in ast.walk(te):
+                    if isinstance(n, ast.Call) and call_name(n) == "any" and n.args and n.args[0] is cp and _mentions_target_id(cp.elt) and not cp.generators[0].ifs:
+                        par_ok, held = logic.implies([(te, True)], n) , cp.elt
+                    if isinstance(n, ast.Call) and call_name(n) == "next" and len(n.args) == 2 and n.args[0] is cp and isinstance(n.args[1], ast.Constant) and n.args[1].value is None \
+                            and cp.generators[0].ifs and all(_mentions_target_id(c) for c in cp.generators[0].ifs):
+                        nn = ast.Compare(left=n, ops=[ast.IsNot()], comparators=[ast.Constant(value=None)])
+                        par_ok = logic.equivalent(te, nn) or logic.equivalent(te, n)
+                        held = ast.BoolOp(op=ast.And(), values=list(cp.generators[0].ifs)) if len(cp.generators[0].ifs) > 1 else cp.generators[0].ifs[0]
+                if par_ok and held is not None:
+                    guard_ifs.append(st)
+                    guard_tests[id(st)] = held
+                    guard_loops[id(st)] = None
     ctx.floor("R9.3", "generator-variable guards", len(guard_ifs), 1)
     g_containers = set()
     for st in guard_ifs:
-        for n in ast.walk(st.test):
+        for n in ast.walk(guard_tests[id(st)]):
             if isinstance(n, ast.Compare) and len(n.ops) == 1 and isinstance(n.ops[0], ast.In):
                 g_containers.add(norm(n.comparators[0]))
     covered = set()
@@ -276,7 +312,7 @@ def run(ctx):
     ctx.check(not missing, "R9.3", "_eval:GeneratorExp:guard-covers-vetted-roots",
               f"generator variables named {missing[:6]}{'...' if len(missing) > 6 else ''} are not refused although calls on these roots pass the "
               f"whitelist by name: `any({missing[0] if missing else 'x'}() for {missing[0] if missing else 'x'} in [r.s.upper])` invokes an "
-              "arbitrary bound method", guard_ifs[0], f"guard tests membership in {sorted(g_containers)}, covering all {len(v_roots)} whitelist roots "
+              "arbitrary bound method", guard_ifs[0] if guard_ifs else ev_fn, f"guard tests membership in {sorted(g_containers)}, covering all {len(v_roots)} whitelist roots "
               "and every name of the matcher namespace", key="R9.3:generator-variable-may-shadow-vetted-root")
     # the guard must run before any binding: it precedes the call that starts the generator recursion
     gen_branch = next((st for st in walk_no_nested(ev_fn) if isinstance(st, ast.If) and isinstance(st.test, ast.Call)
@@ -288,15 +324,13 @@ def run(ctx):
         if not gifs:
             continue
         fcfg = CFG(fn)
-        loop = gifs[0]
-        while loop is not None and not isinstance(loop, ast.For):
-            loop = getattr(loop, "_parent", None)
+        loop = guard_loops[id(gifs[0])] or gifs[0]
         binders = [c for c in calls_in(fn) if isinstance(c.func, ast.Name) and c.func.id in {f.name for f in funcs_in(gen_branch)}]
         for b in binders:
             ctx.check(loop is not None and fcfg.dominates(fcfg.node_of(loop).id, fcfg.node_of(b).id), "R9.3",
                       "_eval:GeneratorExp:guard-before-binding", "generator variables can be bound before the guard has run", b,
                       "the guard loop over node.generators dominates the start of the binding recursion")
-        early = [n for n in ast.walk(loop) if isinstance(n, (ast.Break, ast.Continue))] if loop is not None else []
+        early = [n for n in ast.walk(loop) if isinstance(n, (ast.Break, ast.Continue))] if isinstance(loop, ast.For) else []
         ctx.check(not early, "R9.3", "_eval:GeneratorExp:guard-loop-complete", "the guard loop can skip generators", loop or fn,
                   "every generator target is tested")
 
@@ -333,7 +367,7 @@ def run(ctx):
             scfg = CFG(scope_fn)
             node = scfg.node_of(c)
             facts = {(t, p) for t, p, _ in scfg.facts_at(node.id)}
-            from ..core import expand_aliases, single_assign_aliases
+            pass
 
             al = single_assign_aliases(scope_fn)
             name_x = expand_aliases(name_arg, al)
